@@ -116,15 +116,21 @@ def parse_assumptions(out):
     """Parse the output of Print Assumptions commands: returns (n_closed, axioms set)."""
     axioms = set()
     closed = out.count("Closed under the global context")
-    blocks = re.split(r"\n(?=Axioms:)", out)
-    for b in blocks:
-        if b.startswith("Axioms:"):
-            for line in b.split("\n")[1:]:
-                m = re.match(r"^([A-Za-z_][A-Za-z0-9_.']*)\s*:", line)
-                if m:
-                    axioms.add(m.group(1))
-                elif line and not line.startswith(" ") and not re.match(r"^[A-Za-z_]", line):
-                    break
+    in_block = False
+    for line in out.split("\n"):
+        if line.startswith("Axioms:"):
+            in_block = True
+            continue
+        if not in_block:
+            continue
+        if line.startswith("Closed under") or line.startswith("File ") or line.startswith("Warning"):
+            in_block = False
+            continue
+        m = re.match(r"^([A-Za-z_][A-Za-z0-9_.']*)\s*(:|$)", line)
+        if m:
+            axioms.add(m.group(1))
+        elif line and not line[0].isspace():
+            in_block = False
     return closed, axioms
 
 
@@ -202,7 +208,9 @@ class Check:
 
     def run_cases(self, cases, jobs):
         lines = [sx.show(c) for c in cases]
-        model = corr.run_model(lines, jobs=max(1, jobs // 2)) if getattr(self.mod, "USE_MODEL", True) else [None] * len(lines)
+        mc = getattr(self.mod, "model_case", None)
+        mlines = [sx.show(mc(c)) for c in cases] if mc else lines
+        model = corr.run_model(mlines, jobs=max(1, jobs // 2)) if getattr(self.mod, "USE_MODEL", True) else [None] * len(lines)
         impl = corr.run_impl(self.mod.RUNNER, lines, jobs=jobs)
         return lines, model, impl
 
